@@ -26,7 +26,7 @@ ASSUMPTIONS = [
 ]
 GATES = {
     "odd_column_offset_with_half_integer_disparities": 1, "even_column_offset_with_half_integer_disparities": 1,
-    "crop_touching_an_image_side": 1, "subpix_2": 1, "subpix_4": 1, "cross_checking": 2, "flip_relation_checked": 5,
+    "crop_touching_an_image_side": 1, "subpix_2": 1, "subpix_4": 1, "cross_checking": 2, "flip_relation_checked": 5, "scene_spanning_two_internal_blocks": 4,
     "interior_pixels_compared": 5000,
 }
 
@@ -105,6 +105,14 @@ def run_case(case, ctx):
         cone_c = 2 * cone_c + rad
     rows = int(rng.integers(2 * cone_r + 12, 2 * cone_r + 34))
     cols = int(rng.integers(2 * cone_c + 14, 2 * cone_c + 46))
+    # the steps work in internal blocks of 50 / 100 pixels counted from the origin of the processed array: every
+    # other scene spans more than one block in one direction, and its crops start inside the first block
+    big = case["i"] % 2 == 1
+    if big:
+        if rng.random() < 0.5:
+            rows = max(rows, int(rng.integers(104, 131)))
+        else:
+            cols = max(cols, int(rng.integers(104, 141)))
     tex = ["random", "lowtex", "patches", "steps"][int(rng.integers(0, 4))]
     L, R = gen.stereo_pair(rng, rows, cols, tex, max_shift=min(delta, 3), noise=2)
     L, R = np.clip(L, 0, 255), np.clip(R, 0, 255)
@@ -172,6 +180,7 @@ def run_case(case, ctx):
             x, y = lfr[nm].data[::-1], lw[nm].data
             ctx.violation("vertical-flip-relation", f"{nm}: {gen.first_diffs(y, x, 3)} (a=original, b=flipped run flipped back)", case,
                           situation=nm, desc=desc)
+    ctx.gate("scene_spanning_two_internal_blocks", int(big))
     ctx.gate("subpix_2", int(subpix == 2))
     ctx.gate("subpix_4", int(subpix == 4))
     ctx.gate("cross_checking", int(validation))
